@@ -52,6 +52,15 @@ func checkC01(c *Check) {
 			c.OK("bind-is-PID-justified", name, b.Pos(p), "form A: on the true edge of u.srcPID == login.PID for this very object and login")
 			continue
 		}
+		// form A through a finder function: the object comes out of a
+		// repository function as a result that is only ever assigned, on the
+		// true edge of v.srcPID == pid, the very v compared, with pid bound
+		// to this login's PID at the call; and the bind is conditional on a
+		// result of that same call (found flag / non-nil object)
+		if ok, why := finderJustified(p, b); ok {
+			c.OK("bind-is-PID-justified", name, b.Pos(p), "form A (finder): "+why)
+			continue
+		}
 		// form B
 		okB := false
 		why := "no guard u.srcPID == login.PID of this object and this login dominates the bind"
@@ -292,4 +301,95 @@ func renderRule(c *Check, t *Tracker, fn *ssa.Function) {
 		}
 	}
 	c.Cond(nsub >= 1, "render-from-own-login", "renderer "+fn.Name()+": subjects copied", p.InstrPos(ret), "subjects map filled from the login", "the UserAction's subjects are not filled from the bound login")
+}
+
+
+// finderJustified: see form A (finder) in checkC01.
+func finderJustified(p *Prog, b TFact) (bool, string) {
+	u := b.U
+	if u == nil || u.K != "call" || u.R == nil {
+		return false, ""
+	}
+	call, ok := u.V.(*ssa.Call)
+	if !ok {
+		return false, ""
+	}
+	sc := staticCallee(call.Common())
+	if sc == nil || !InRepo(sc) || sc.Blocks == nil || u.Idx < 0 {
+		return false, ""
+	}
+	nr := u.R.Bind(sc, call)
+	// the result's variable
+	var cell *ssa.Alloc
+	okCell := true
+	allInstrs(sc, func(in ssa.Instruction) {
+		ret, isRet := in.(*ssa.Return)
+		if !isRet || u.Idx >= len(ret.Results) || ret.Block() == sc.Recover {
+			return
+		}
+		ld, isLd := ret.Results[u.Idx].(*ssa.UnOp)
+		if !isLd {
+			okCell = false
+			return
+		}
+		a, isA := ld.X.(*ssa.Alloc)
+		if !isA || (cell != nil && cell != a) {
+			okCell = false
+			return
+		}
+		cell = a
+	})
+	if !okCell || cell == nil {
+		return false, ""
+	}
+	// every store of a non-nil value into it is guarded by v.srcPID == pid
+	nst := 0
+	for _, st := range nr.cellStores(cell) {
+		if isNilConst(st.Val) {
+			continue
+		}
+		nst++
+		fr := NewResolver(p)
+		for k, v := range nr.Env {
+			fr.Env[k] = v
+		}
+		vo := fr.Of(st.Val)
+		okG := false
+		for _, g := range guardAtoms(fr, st) {
+			if !((g.Op == "==" && g.Pos) || (g.Op == "!=" && !g.Pos)) {
+				continue
+			}
+			isSrc := func(o *Org) bool { return o.K == "field" && o.Name == "srcPID" && sameOrg(o.Sub[0], vo) }
+			isPID := func(o *Org) bool { return o.K == "field" && o.Name == "PID" && sameOrg(o.Sub[0], b.Login) }
+			if (isSrc(g.X) && isPID(g.Y)) || (isSrc(g.Y) && isPID(g.X)) {
+				okG = true
+			}
+		}
+		if !okG {
+			return false, ""
+		}
+	}
+	if nst == 0 {
+		return false, ""
+	}
+	// the bind is conditional on a result of the same call
+	cond := false
+	for _, g := range b.Guards {
+		var ex *ssa.Extract
+		switch x := g.V.(type) {
+		case *ssa.Extract:
+			ex = x
+		case *ssa.BinOp:
+			if e, ok := x.X.(*ssa.Extract); ok && isNilConst(x.Y) {
+				ex = e
+			}
+		}
+		if ex != nil && ex.Tuple == ssa.Value(call) {
+			cond = true
+		}
+	}
+	if !cond {
+		return false, ""
+	}
+	return true, "the object is result #" + fmt.Sprint(u.Idx) + " of " + sc.Name() + ", assigned only on the true edge of v.srcPID == pid with pid bound to this login's PID; the bind is conditional on that call's result"
 }
